@@ -20,6 +20,16 @@ PLAN = {
     ],
     "C11": [dict(test="TestC11", quick=(2500, 16), thorough=(50000, 16), timeout_thorough=7200)],
     "C10": [dict(test="TestC10", quick=(2500, 16), thorough=(60000, 16), timeout_thorough=7200)],
+    "C12": [
+        dict(test="TestC12N", quick=(4000, 8), thorough=(150000, 8), timeout_thorough=7200),
+        dict(test="TestC12R", quick=(100, 8), thorough=(1500, 8), race=True, timeout=1500, timeout_thorough=7200),
+    ],
+    "C13": [
+        dict(test="TestC13R", quick=(120, 10), thorough=(2500, 8), race=True, timeout=1500, timeout_thorough=7200),
+        dict(test="TestC13S", quick=(2000, 6), thorough=(40000, 8), timeout_thorough=7200),
+    ],
+    "C14": [dict(test="TestC14R", quick=(150, 16), thorough=(2500, 16), race=True, timeout=1500, timeout_thorough=7200)],
+    "C16": [dict(test="TestC16R", quick=(120, 16), thorough=(2000, 16), race=True, timeout=1500, timeout_thorough=7200)],
     "C18": [
         dict(test="TestC18Dense", kind="plain", quick=(0, 1), thorough=(0, 1)),
         dict(test="TestC18Leader", quick=(30000, 4), thorough=(1500000, 8)),
@@ -71,6 +81,16 @@ ASSUMPTIONS = {
     ],
     "C11": [dict(test="TestC11", quick=(2500, 16), thorough=(50000, 16), timeout_thorough=7200)],
     "C10": [dict(test="TestC10", quick=(2500, 16), thorough=(60000, 16), timeout_thorough=7200)],
+    "C12": [
+        dict(test="TestC12N", quick=(4000, 8), thorough=(150000, 8), timeout_thorough=7200),
+        dict(test="TestC12R", quick=(100, 8), thorough=(1500, 8), race=True, timeout=1500, timeout_thorough=7200),
+    ],
+    "C13": [
+        dict(test="TestC13R", quick=(120, 10), thorough=(2500, 8), race=True, timeout=1500, timeout_thorough=7200),
+        dict(test="TestC13S", quick=(2000, 6), thorough=(40000, 8), timeout_thorough=7200),
+    ],
+    "C14": [dict(test="TestC14R", quick=(150, 16), thorough=(2500, 16), race=True, timeout=1500, timeout_thorough=7200)],
+    "C16": [dict(test="TestC16R", quick=(120, 16), thorough=(2000, 16), race=True, timeout=1500, timeout_thorough=7200)],
     "C18": [
         dict(test="TestC18Dense", kind="plain", quick=(0, 1), thorough=(0, 1)),
         dict(test="TestC18Leader", quick=(30000, 4), thorough=(1500000, 8)),
